@@ -30,6 +30,9 @@ def load_known():
             line = line.strip()
             if not line or line.startswith("#"):
                 continue
+            if line.startswith("fixed:"):
+                out.append({"kind": "fixed", "line": line})
+                continue
             out.append(json.loads(line))
     return out
 
@@ -217,6 +220,7 @@ def run_property(prop, tier, seed, only=None, replay_meta=None):
     os.makedirs(outdir, exist_ok=True)
     env = dict(os.environ)
     env["GOTRACEBACK"] = "all"
+    env["VERIF_REPO_DIR"] = repo
     env["GOMAXPROCS"] = str(cfg.get("gomaxprocs", 2))
     if race:
         env["GORACE"] = "halt_on_error=0 log_path=%s/race" % outdir
